@@ -100,6 +100,16 @@ Theorem C07_table :
 Proof. exact table_property. Qed.
 Print Assumptions C07_table.
 
+(* a value written in ANY unit: whatever the conversion into the parameter's CurrentUnits is (conv: pint, as data),
+   the reader's verdict on "v unit" is the verdict of the range model on the converted value - out of [Min, Max]
+   after conversion: rejected by name; inside: the converted value is the value in use *)
+Theorem C07_unit_qualified :
+  forall p conv v, p_kind p = KFloat ->
+  ((conv v < p_min p \/ p_max p < conv v) -> is_sentinel p (conv v) = false -> read_qualified p conv v = Reject (p_name p)) /\
+  (p_min p <= conv v -> conv v <= p_max p -> final_is p (read_qualified p conv v) (conv v)).
+Proof. exact qualified_verdict. Qed.
+Print Assumptions C07_unit_qualified.
+
 (* ================= round 2: the TEXT of a value (Model/TokenReader.v) ================= *)
 
 (* a number, however it is written ("31", "4.0", "1e0"): everything above carries over *)
@@ -201,6 +211,8 @@ Example C07_example_table : forallb row_ok [ex_float; ex_cost; w_production_well
 Proof. vm_compute. reflexivity. Qed.
 
 Example C07_example_text :
+  read_qualified ex_float (fun m => m / (1000#1)) (20000#1) = Reject "Reservoir Depth" /\
+  read_qualified ex_float (fun m => m / (1000#1)) (15000#1) = Accept ((15000#1) / (1000#1)) /\
   read_tok ex_float (TNum (15#1)) = TAccept (15#1) /\ read_tok ex_float TPInf = TRejectNamed "Reservoir Depth" /\
   read_tok ex_float TNaN = TAcceptNaN /\ read_tok w_production_wells TText = TErrAnon /\
   read_option true true None w_econ_model (TCanon 4) = TAccept (4#1) /\ read_option true true None w_econ_model (TCanon 5) = TRejectNamed "Economic Model" /\
